@@ -216,8 +216,10 @@ def isSendOut : Out → Bool
   | .send | .goodbye => true
   | .callback => false
 
-def accepts (k : Kind) (done tclosed cleanup afterClose : Bool) (nsend ncb : Nat) : String :=
-  let h := hostOfFlags done tclosed cleanup afterClose ncb
+def accepts (k : Kind) (done tclosed rxClosed cleanup afterClose : Bool) (nsend ncb : Nat) : String :=
+  -- a host may have several transports (dedicated listen socket + respond socket): `tclosed` = all of them closed (what
+  -- `Closed` needs), `rxClosed` = the one this datagram would arrive on; an arrival is judged against the latter
+  let h := hostOfFlags done (match k with | .recv => rxClosed | _ => tclosed) cleanup afterClose ncb
   let b : Block := match k with
     | .recv => .recv nsend 0 false (ncb > 0)
     | .outq => .outqFire (nsend > 0)
